@@ -336,6 +336,42 @@ func exec(c px.Context, op string, args []sx.Sexp) core.Result {
 			return core.Fail(out, "pb-stream", "value through ConsumePBData/protoConsumer differs")
 		}
 		return core.Result{Out: out, Pred: "ok", NonTrivial: nt}
+	case "serjson":
+		// end to end (implementation only): the real serializer streaming a Data value into the JSON streamer,
+		// read back through JsonToData into the real deserializer; shared substructure and long repeated
+		// strings exercise back-references
+		v := valOf(args[0])
+		if hasBin(args[0]) || hasNonStringKey(args[0]) {
+			return core.Result{Out: "-", Pred: "n/a"}
+		}
+		w := types.WrapValues([]px.Value{v, v, types.WrapString("a string that is long enough to be de-duplicated"), v, types.WrapString("a string that is long enough to be de-duplicated")})
+		var buf bytes.Buffer
+		var back px.Value
+		if err := safely(func() {
+			serialization.NewSerializer(c, px.EmptyMap).Convert(w, serialization.NewJsonStreamer(&buf))
+		}); err != nil {
+			return core.Fail("-", "serjson-write-panic", fmt.Sprint(err))
+		}
+		if !json.Valid(buf.Bytes()) {
+			return core.Fail("-", "serjson-invalid-json", buf.String())
+		}
+		if err := safely(func() {
+			fc := serialization.NewDeserializer(c, px.EmptyMap)
+			serialization.JsonToData("t", bytes.NewReader(buf.Bytes()), fc)
+			back = fc.Value()
+		}); err != nil {
+			if containsReserved(args[0]) {
+				return core.Fail("-", "pref-key", "reserved key in user hash: "+fmt.Sprint(err))
+			}
+			return core.Fail("-", "serjson-read-panic", buf.String()+": "+fmt.Sprint(err))
+		}
+		if back == nil || !back.Equals(w, nil) || valStr(back) != valStr(w) {
+			if containsReserved(args[0]) {
+				return core.Fail("-", "pref-key", "reserved key in user hash changes the value on the way back")
+			}
+			return core.Fail("-", "serjson-differs", buf.String())
+		}
+		return core.Result{Out: "-", Pred: "ok", NonTrivial: true}
 	case "pbev":
 		e := evOf(args[0])
 		pc := proto.NewProtoConsumer()
@@ -368,6 +404,51 @@ func (e *ev) wfPairs() bool {
 		}
 	}
 	return true
+}
+
+func hasNonStringKey(e sx.Sexp) bool {
+	if e.Tag() == "h" {
+		for _, kv := range e.Args() {
+			if kv.List[0].Tag() != "s" || hasNonStringKey(kv.List[1]) {
+				return true
+			}
+		}
+		return false
+	}
+	if e.Tag() == "a" {
+		for _, k := range e.Args() {
+			if hasNonStringKey(k) {
+				return true
+			}
+		}
+	}
+	return false
+}
+
+// a user hash with one of the reserved keys (__pref, __ptype, __pvalue) is re-interpreted by the reader
+func containsReserved(e sx.Sexp) bool {
+	if e.Tag() == "h" {
+		for _, kv := range e.Args() {
+			if kv.List[0].Tag() == "s" {
+				k := kv.List[0].Args()[0].MustStr()
+				if k == "__pref" || k == "__ptype" || k == "__pvalue" {
+					return true
+				}
+			}
+			if containsReserved(kv.List[1]) {
+				return true
+			}
+		}
+		return false
+	}
+	if e.Tag() == "a" {
+		for _, k := range e.Args() {
+			if containsReserved(k) {
+				return true
+			}
+		}
+	}
+	return false
 }
 
 // ---- values for the pb op --------------------------------------------------------------------------------
@@ -573,7 +654,9 @@ func gen(g *core.G) {
 		}
 	}
 	for i := 0; i < 1500*g.Scale; i++ {
-		g.Emit("pb " + randVal(g.Rng, 1+g.Rng.Intn(4), i%10 == 0).String())
+		v := randVal(g.Rng, 1+g.Rng.Intn(4), i%10 == 0).String()
+		g.Emit("pb " + v)
+		g.Emit("@serjson " + v)
 	}
 	// malformed stream (outside the property's quantifier; model and implementation must still agree)
 	for i := 0; i < 200*g.Scale; i++ {
